@@ -210,7 +210,7 @@ def run_concmon(prop, tier, t0):
                                'controller moves on after a 30 ms grace period',
                                'writers only store (never delete), values are unique per write, so every read is '
                                'attributable; wall-clock never decides a verdict (watchdog expiry = dropped schedule, counted)',
-                           ], required_counters=['c14_schedules_gated', 'c14_schedules_free', 'c14_overlapping_op_pairs',
+                           ], required_counters=['c14_schedules_gated', 'c14_schedules_free', 'c14_overlapping_op_pairs', 'c14_runs_with_identically_seeded_writers',
                                                  'c14_gate_grants', 'c14_forked_handle_runs', 'c14_idle_reader_runs'])
 
 
